@@ -25,7 +25,10 @@ CHECK_DEADLOCK FALSE
 """
 LZM = "SPECIFICATION Spec\nCONSTANTS\n Threads = {{t1, t2}}\n Ids = {{1, 2}}\n WithLock = {lock}\nINVARIANT IdentityStable\nCHECK_DEADLOCK FALSE\n"
 LZT = ("SPECIFICATION Spec\nCONSTANTS\n Threads = {{{threads}}}\n NTables = 4\n FlagLast = {last}\n{props}CHECK_DEADLOCK FALSE\n")
-LRA = "SPECIFICATION Spec\nCONSTANTS\n Threads = {t1, t2}\n Keys = {1, 2, 3}\n Size = 2\n NOps = 2\nINVARIANT BoundedSize\nINVARIANT ReturnsCachedValue\nCHECK_DEADLOCK FALSE\n"
+FZC = ("SPECIFICATION Spec\nCONSTANTS\n Threads = {{t1, t2}}\n Cultures = {{inv, fi, da}}\n GridOffsets = {{0, 1800, 3600}}\n OtherOffsets = {{2700}}\n"
+       " IdUsesCulture = {uses}\n{props}CHECK_DEADLOCK FALSE\n")
+LRA = ("SPECIFICATION Spec\nCONSTANTS\n Threads = {{t1, t2}}\n Keys = {{1, 2, 3}}\n Size = 2\n NOps = {nops}\n FastPath = {fast}\n{props}CHECK_DEADLOCK FALSE\n")
+LRA_PROPS = "VIEW View\nINVARIANT BoundedSize\nINVARIANT ReturnsCachedValue\nINVARIANT QueueMatchesDict\n"
 
 
 def cold(calc, fn):
@@ -266,6 +269,59 @@ def sequential_events(rnd: random.Random, q: bool) -> list:
                 evs.append({"op": "fmt", "culture": cn + " " + pt, "text": [0] if a != b else [1], "pure": [1], "fresh_process": True})
             else:
                 evs.append({"op": "fmt", "culture": cn + " " + pt, "text": a, "pure": b, "fresh_process": True})
+    # 8. the fixed-zone cache behind DateTimeZone.for_offset: it is filled by whoever asks first, under that thread's current culture
+    #    (thread-local); the id answered for an offset must not depend on who that was (FixedZoneCache.tla)
+    try:
+        import threading as _th
+
+        from pyoda_time import DateTimeZone, Offset
+
+        def in_thread(cname, fn):
+            box = {}
+
+            def body():
+                try:
+                    if cname is not None:
+                        CultureInfo.current_culture = CultureInfo(cname) if cname else CultureInfo.invariant_culture
+                    box["v"] = fn()
+                except Exception as e:  # noqa: BLE001
+                    box["exc"] = type(e).__name__
+
+            t = _th.Thread(target=body)
+            t.start()
+            t.join()
+            return box
+
+        def zone_id(secs):
+            return DateTimeZone.for_offset(Offset.from_seconds(secs)).id
+
+        attr = "_DateTimeZone__fixed_zone_cache"
+        saved = getattr(DateTimeZone, attr, None)
+        try:
+            offs = [19800, 20700, -12600, 3600, -20700, 45 * 60, 0, 5 * 3600 + 7]
+            for first in ["fi-FI", "", "en-US", "da-DK", "fr-CH", "ar-SA"]:
+                for asker in ["", "fi-FI", None]:
+                    o1, o2 = rnd.choice(offs), rnd.choice(offs)
+                    setattr(DateTimeZone, attr, None)
+                    in_thread(first, lambda o1=o1: zone_id(o1))                  # the first caller fills the cache
+                    got = in_thread(asker, lambda o2=o2: zone_id(o2))
+                    setattr(DateTimeZone, attr, None)
+                    pure = in_thread(asker, lambda o2=o2: zone_id(o2))           # the same question, nothing asked before
+                    ev = {"op": "fz", "offset": o2, "first_culture": first, "asker": "default" if asker is None else asker,
+                          "id": [ord(c) for c in got.get("v", "")], "pure": [ord(c) for c in pure.get("v", "")]}
+                    if "exc" in got or "exc" in pure:
+                        ev["exc"] = got.get("exc") or pure.get("exc")
+                    # ... and the id leads back to an equal zone through the built-in provider (ids are how zones are stored and sent)
+                    try:
+                        back = DateTimeZoneProviders.tzdb.get_zone_or_none(got.get("v", ""))
+                        ev["resolves"] = back is not None and back.get_utc_offset(Instant.from_unix_time_seconds(0)).seconds == o2
+                    except Exception as e:  # noqa: BLE001
+                        ev["resolves"] = False
+                    evs.append(ev)
+        finally:
+            setattr(DateTimeZone, attr, saved)
+    except Exception as e:  # noqa: BLE001
+        evs.append({"op": "fz", "offset": 0, "first_culture": "?", "asker": "?", "id": [], "pure": [], "exc": type(e).__name__, "resolves": False})
     # 7. a provider over a source that answers an alias with the canonical zone (the source contract allows it): the zone
     #    object served for an id is still the same one on every lookup, in any order of ids
     class AliasSource:
@@ -495,6 +551,47 @@ def threaded_events(ctx: Ctx, rnd: random.Random, q: bool) -> list:
         hung = sch.run([fbody(tn) for tn in names], order)
         pure = all(o[0] == "ok" and all(v == want[w] for w, v in o[1].items()) for o in out)
         evs.append({"op": "thr", "what": "format_info_name_tables", "all_pure": pure, "identity_stable": True, "hung": bool(hung), "n": len(out)})
+    # schedules from the cache model (its unlocked-test variant has the richer interleavings), enforced on a real _Cache of the
+    # model's size with the model's keys; afterwards the cache is used on: enough new keys to turn it over and every earlier
+    # key again.  Every lookup must return the value of its key (values are a function of the key), without raising.
+    from pyoda_time.utility._cache import _Cache
+
+    cbehs = _behaviours(ctx, "MC_LraCache", LRA.format(nops=3, fast="TRUE", props=""), 60 if q else 600, 40, ctx.seed + 9, "lra")
+    files_cache = ("pyoda_time/utility/_cache.py",)
+    for b in cbehs:
+        sched = [str(x) for x in b.get("sched", [])]
+        prog = b.get("prog", {})
+        names = sorted(set(sched)) or ["t1", "t2"]
+        for stretch in (1, 3):
+            cache = _Cache(2, lambda key: ("value of", key))
+            out = []
+            lock = threading.Lock()
+
+            def cbody(tn, cache=cache, out=out, lock=lock, prog=prog):
+                def fn(s):
+                    for key in [int(x) for x in (prog.get(tn, []) if isinstance(prog, dict) else [])]:
+                        try:
+                            v = cache.get_or_add(key)
+                            ok = v == ("value of", key)
+                        except Exception as ex:  # noqa: BLE001
+                            ok = False
+                            v = type(ex).__name__
+                        with lock:
+                            out.append((key, ok, v))
+                return fn
+
+            sch = LineScheduler(files_cache, stall_s=0.02)
+            order = [names.index(t) for t in sched if t in names for _ in range(stretch)] + [rnd.randrange(len(names)) for _ in range(60)]
+            hung = sch.run([cbody(tn) for tn in names], order)
+            tail_ok = True
+            try:
+                for key in [101, 102, 103, 1, 2, 3, 104, 105, 1, 2, 3]:
+                    tail_ok = tail_ok and cache.get_or_add(key) == ("value of", key)
+                tail_ok = tail_ok and cache.count() <= 2
+            except Exception:  # noqa: BLE001
+                tail_ok = False
+            evs.append({"op": "thr", "what": "least_recently_added_cache", "all_pure": all(o[1] for o in out) and tail_ok, "identity_stable": True,
+                        "hung": bool(hung), "n": len(out)})
     # schedules from the lazy-zone-map model, on a fresh provider over the real data
     raw = open("/dev/null", "rb")
     raw.close()
@@ -623,7 +720,16 @@ def run(ctx: Ctx):
                             "Invariant HistoryIndependent is violated", workers=4, tag="ysc_neg_span")
     ctx.mc("MC_LazyZoneMap", LZM.format(lock="TRUE"), workers=4, tag="lzm_locked")
     ctx.mc_expect_violation("MC_LazyZoneMap", LZM.format(lock="FALSE"), "Invariant IdentityStable is violated", workers=4, tag="lzm_unlocked")
-    ctx.mc("MC_LraCache", LRA, workers="auto", tag="lra")
+    ctx.mc("MC_LraCache", LRA.format(nops=2 if q else 3, fast="FALSE", props=LRA_PROPS), workers="auto", tag="lra")
+    # ... and why the cached test has to be made under the lock
+    ctx.mc_expect_violation("MC_LraCache", LRA.format(nops=2, fast="TRUE", props="VIEW View\nINVARIANT ReturnsCachedValue\n"),
+                            "Invariant ReturnsCachedValue is violated", workers=4, tag="lra_unlocked_test_keyerror")
+    ctx.mc_expect_violation("MC_LraCache", LRA.format(nops=2, fast="TRUE", props="VIEW View\nINVARIANT QueueMatchesDict\n"),
+                            "Invariant QueueMatchesDict is violated", workers=4, tag="lra_unlocked_test_double_queue")
+    # the fixed-zone cache: answers are history-free exactly when a zone's id is not made from the builder's current culture
+    ctx.mc("MC_FixedZoneCache", FZC.format(uses="FALSE", props="INVARIANT AnswerIndependentOfHistory\nINVARIANT IdIsAFunctionOfTheOffset\n"), workers=4, tag="fixed_zone_ids_invariant")
+    ctx.mc_expect_violation("MC_FixedZoneCache", FZC.format(uses="TRUE", props="INVARIANT AnswerIndependentOfHistory\n"),
+                            "Invariant AnswerIndependentOfHistory is violated", workers=4, tag="fixed_zone_ids_from_current_culture")
     lzt_props = "INVARIANT ReadersSeeAllTables\nINVARIANT AssignedOnce\nPROPERTY AllDone\n"
     ctx.mc("MC_LazyTables", LZT.format(threads="t1, t2, t3", last="TRUE", props="VIEW View\nINVARIANT ReadersSeeAllTables\nINVARIANT AssignedOnce\n"),
            workers=4, tag="lazy_tables_3")
